@@ -77,6 +77,10 @@ TREES = {
     'symlinks': [('target.txt', 'file', D(10)), ('link', 'link', 'target.txt'), ('up', 'link', '..'), ('dangling', 'link', 'no/such/file'), ('d', 'dir', None), ('d/l2', 'link', '../target.txt')],
     'dups': [('one.bin', 'file', D(300)), ('two.bin', 'file', D(300)), ('three.bin', 'file', D(301)), ('s', 'dir', None), ('s/four.bin', 'file', D(300))],
     'dups-order': [('a1.bin', 'file', b'X' * 64), ('s', 'dir', None), ('s/b1.bin', 'file', b'Y' * 64), ('s/b2.bin', 'file', b'Y' * 64), ('z.bin', 'file', b'X' * 64)],
+    # scan order is breadth first: root file X, then two identical files Y of the same size in a sub-directory
+    'dups-xyy': [('a1.bin', 'file', b'X' * 64), ('s', 'dir', None), ('s/b1.bin', 'file', b'Y' * 64), ('s/b2.bin', 'file', b'Y' * 64)],
+    'dups-xyx': [('a1.bin', 'file', b'X' * 64), ('s', 'dir', None), ('s/b1.bin', 'file', b'Y' * 64), ('s/t', 'dir', None), ('s/t/c1.bin', 'file', b'X' * 64)],
+    'long-symlinks': [('t', 'file', D(3))] + [('l%03d' % n, 'link', 'a' * n + '/bbbb/cc') for n in range(100, 141)],
     'empty-dirs': [('e1', 'dir', None), ('e1/e2', 'dir', None), ('f', 'file', b'')],
     'deep': [('/'.join('d%d' % i for i in range(1, k + 1)), 'dir', None) for k in range(1, 10)] + [('/'.join('d%d' % i for i in range(1, 10)) + '/leaf.txt', 'file', D(11))],
     'many': [('file%02d.txt' % i, 'file', D(i + 1)) for i in range(45)],
